@@ -15,16 +15,34 @@ VARIABLES i, bad, members, near
 vars == <<i, bad, members, near>>
 Init == i = 1 /\ bad = <<>> /\ members = 0 /\ near = 0
 
+(***************************************************************************)
+(* The "json-bare" reader hands the text to the JSON decoder as it is.     *)
+(* JSON allows insignificant white space around a value, and a text that   *)
+(* happens to be a quoted string is a string: the token the number reader  *)
+(* finally sees is Token(s), of kind "string" or "bare".                   *)
+(***************************************************************************)
+RECURSIVE TrimL(_)
+TrimL(s) == IF s # <<>> /\ s[1] = 32 THEN TrimL(Tail(s)) ELSE s
+RECURSIVE TrimR(_)
+TrimR(s) == IF s # <<>> /\ s[Len(s)] = 32 THEN TrimR(SubSeq(s, 1, Len(s) - 1)) ELSE s
+Trim(s) == TrimR(TrimL(s))
+IsQuotedTok(t) == Len(t) >= 2 /\ t[1] = Quote /\ t[Len(t)] = Quote
+                  /\ \A j \in 2..(Len(t) - 1) : t[j] # Quote /\ t[j] # 92
+Text(ev) == IF ev.rd = "json-bare"
+            THEN LET t == Trim(ev.in) IN IF IsQuotedTok(t) THEN SubSeq(t, 2, Len(t) - 1) ELSE t
+            ELSE ev.in
+BareNumber(ev) == ev.rd = "json-bare" /\ ~IsQuotedTok(Trim(ev.in))
+
 ShouldAccept(ev) ==
-    /\ Matches(ev.in, ev.ty)
-    /\ Fits64(ev.in, ev.ty)
-    /\ (ev.rd = "json-bare" => ev.ty = "amount" /\ JsonNumber(ev.in))
+    /\ Matches(Text(ev), ev.ty)
+    /\ Fits64(Text(ev), ev.ty)
+    /\ (BareNumber(ev) => ev.ty = "amount" /\ JsonNumber(Text(ev)))
 
 \* "ok" | kind of divergence
 ReadVerdict(ev) ==
     IF ShouldAccept(ev)
     THEN IF ~ev.ok THEN "rejects-member"
-         ELSE IF A(ev.v, ev.e) = ValueOf(ev.in, ev.ty) THEN "ok" ELSE "wrong-value"
+         ELSE IF A(ev.v, ev.e) = ValueOf(Text(ev), ev.ty) THEN "ok" ELSE "wrong-value"
     ELSE IF ev.ok THEN "accepts-nonmember" ELSE "ok"
 
 PctInDomain(a) == W(Mul(a.v, Of(100)))
